@@ -138,7 +138,7 @@ def run(ctx):
     ):
         ctx.rule(rid, text)
     from . import rulecoll
-    rulecoll.invariants(ctx, "R10", which=("rc2", "rc3"))
+    rulecoll.invariants(ctx, "R10", which=("rc2", "rc3", "rc4"))
     # `sg run` / `sg scan` search every file the library would: which files reach the scan is decided by path/config filters and by
     # read_file alone (the C17 R5 obligations: walker filters, no metadata-based skip, one reader)
     from . import c17
